@@ -579,3 +579,26 @@ class Rec(Builder):
     def from_model(self, ip, model, value):
         vals = {k: b.from_model(ip, model, SV(self.rt.acc[k](value.e), b.kind)) for k, b in self.fields.items()}
         return self.make(vals) if self.make else vals
+
+
+class SmallList(Builder):
+    """a list (by reference) of 0..maxlen elements; its length is decided by a path branch"""
+
+    def __init__(self, elem, maxlen=2):
+        self.elem, self.maxlen = elem, maxlen
+
+    def symbolic(self, ip, name):
+        for k in range(self.maxlen):
+            b = fresh("%s_len_is_%d" % (name, k), 'bool')
+            if ip.st.branch(b.e, "%s has %d items" % (name, k)):
+                return ip.new_list([self.elem.symbolic(ip, "%s_%d" % (name, j)) for j in range(k)])
+        return ip.new_list([self.elem.symbolic(ip, "%s_%d" % (name, j)) for j in range(self.maxlen)])
+
+    def sample(self, rng):
+        return [self.elem.sample(rng) for _ in range(rng.randint(0, self.maxlen))]
+
+    def to_engine(self, ip, native):
+        return ip.new_list([self.elem.to_engine(ip, x) for x in native])
+
+    def from_model(self, ip, model, value):
+        return [self.elem.from_model(ip, model, x) for x in ip.st.cell(value)['items']]
